@@ -1,14 +1,36 @@
 CONFIG = {
     "id": "C03",
-    "coq_targets": ["Model/SimCheck.v"],
-    "prop_files": [],
+    "coq_targets": ["Props/C03.v", "Model/SimCheck.v"],
+    "prop_files": ["Props/C03.v"],
     "gen": [],
     "components": [{
         "name": "sim", "modules": ["Base.NumOps", "Model.Turn", "Model.Sim", "Model.SimCheck"],
         "check": "check_case", "monitor": "monitor_case", "model_out": "monitor_detail",
         "case_type": "case", "ops_path": None,
-        "n_quick": 200, "n_thorough": 10000, "shard": 100,
+        "n_quick": 300, "n_thorough": 12000, "shard": 100,
     }],
-    "rule": "scripted battles", "trusted": [], "assumptions": [],
-    "manifest": {"level_text": "wip", "level_note": "wip", "technique": "wip"},
+    "rule": "scripted battles on the REAL simulation.Simulation: 1-4 registered harness characters (4 kinds: speeds, SP "
+            "costs, target types), 1-5 harness enemies (HP 50-400, speeds incl. ties), 5-14 content scripts of engine calls "
+            "(attacks qualified/unqualified with lethal and scratch damage on any unit incl. dead and unknown ids, SetHP, "
+            "insert abilities with real priorities and abort flags, extra actions, energy, SP, flag modifiers, gauge "
+            "changes, revive switches, samples of Characters()/Enemies()/turn order), per-unit action queues, listener "
+            "slots (BattleStart, ActionEnd, HitEnd, TargetDeath, LimboWaitHeal verdict), decision sequences of the "
+            "script callbacks incl. invalid targets and ult requests, cycle limit 0-4, insert budget 0-12; distinct = "
+            "distinct input term",
+    "trusted": ["hits of harness content are 'plain' (no DEF/RES/stance/shield/crit), so a hit's total is its flat damage; the "
+                "damage formula itself is C04",
+                "listener scripts never open or close an attack bracket (legal use of the API, enforced by the model as a "
+                "distinct outcome and respected by the generator)",
+                "the turn manager part is Model/Turn.v at binary64 (property C02)"],
+    "assumptions": ["content uses the engine API legally: qualified attacks and EndAttack only from action / ult / insert bodies"],
+    "manifest": {
+        "level_text": "Kernel-checked theorem: every terminated run of the executable whole-simulation model (all configs, all "
+                      "content scripts, all decision sequences, all fuel) produces a trace accepted by the lifecycle-protocol "
+                      "stack automaton; the model's complete trace and result are compared exactly with the real simulator on "
+                      "generated scripted battles, and the automaton is also run as a monitor on the real traces.",
+        "level_note": "Coq kernel; hand-written model Model/Sim.v tied by whole-trace correspondence; content is scripted harness "
+                      "content registered through the exported Register functions; internal/* content is not modelled.",
+        "technique": "Coq proof (Hoare-style segment lemmas against a protocol automaton) + correspondence + trace monitor",
+        "design_ref": "DESIGN.md section 7, C03",
+    },
 }
